@@ -4,7 +4,7 @@ use std::sync::atomic::Ordering;
 
 use super::super::{add_socket, co_io_result, IoData};
 #[cfg(feature = "io_cancel")]
-use crate::coroutine_impl::co_cancel_data;
+use crate::coroutine_impl::{co_cancel_data, co_get_handle};
 use crate::coroutine_impl::{is_coroutine, CoroutineImpl, EventSource};
 use crate::io::AsIoData;
 use crate::net::{TcpListener, TcpStream};
@@ -62,10 +62,19 @@ impl<'a> TcpListenerAccept<'a> {
 
 impl EventSource for TcpListenerAccept<'_> {
     fn subscribe(&mut self, co: CoroutineImpl) {
+        // the coroutine may even come to its end, its handle keeps the cancel data valid
+        #[cfg(feature = "io_cancel")]
+        let _handle = co_get_handle(&co);
         #[cfg(feature = "io_cancel")]
         let cancel = co_cancel_data(&co);
-        let io_data = self.io_data;
+        // once the coroutine is stored another thread may resume it and it may drop the
+        // socket we were called through: use the shared event data by value from here
+        let io_data = (*self.io_data).clone();
         // if there is no timer we don't need to call add_io_timer
+        // register the cancel io data before the coroutine is published, a late
+        // registration would overwrite the one of its next blocking call
+        #[cfg(feature = "io_cancel")]
+        cancel.set_io(io_data.clone());
         #[cfg(may_verif)]
         may_queue::verif::point(may_queue::verif::site::IO_ACCEPT_SUB_ARMED, 0);
         io_data.co.store(co);
@@ -80,11 +89,12 @@ impl EventSource for TcpListenerAccept<'_> {
 
         #[cfg(feature = "io_cancel")]
         {
-            // register the cancel io data
-            cancel.set_io((*io_data).clone());
-            // re-check the cancel status
+            // re-check the cancel status: a cancel that came before the coroutine
+            // was stored found nothing to wake up
             if cancel.is_canceled() {
-                unsafe { cancel.cancel() };
+                if let Some(co) = io_data.co.take() {
+                    crate::scheduler::get_scheduler().schedule(co);
+                }
             }
         }
     }
